@@ -15,6 +15,8 @@ Edges travel as `[u, v, w]` (`w = 1` for unweighted functions); `∞`/absent as 
     reply `[modelDistToT|null, negCycleExists, [ok…]]`
 * `["fw", n, es, directed, outs]`       out = `null` (UNBOUNDED) | matrix
     reply `[modelMatrix|null, [ok…], [okOnOldAdapterProblem…]]`
+* `["support", n, es, directed, outs]`  out = 0/1 matrix (1 = finite distance); inexact-double inputs
+    reply `[[ok…]]`
 * `["reach", n, es, s, outs]`           out = list of nodes
     reply `[reachSorted, [[exact, sameSet]…], rustBfsOrder, rustDfsOrder]`
 * `["anypath", n, es, s, t, outs]`      out = `null` | path
@@ -94,6 +96,14 @@ def handleFw (n : Nat) (es : List WEdge) (directed : Bool) (outs : List Val) : S
   (Val.arr [Val.ofOpt (fun M => Val.arr (M.map ofOptInts)) model,
     bools (outs.map (fwCheck n prob)), bools (outs.map (fwCheck n oldProb))]).render
 
+def handleSupport (n : Nat) (es : List WEdge) (directed : Bool) (outs : List Val) : String :=
+  let prob := pythonFwEdges directed es
+  let oks := outs.map fun o =>
+    match o.toNatss? with
+    | some M => checkSupport n prob M
+    | none => false
+  (Val.arr [bools oks]).render
+
 def handleReach (n : Nat) (es : List WEdge) (s : Nat) (outs : List Val) : String :=
   let canon := reachSorted n es s
   let vs := outs.map fun o =>
@@ -156,6 +166,10 @@ def handle (line : String) : String :=
   | some ("fw", [n, es, directed, outs]) =>
     (match n.toNat?, toEdges? es, directed.toBool?, outs.toArr? with
      | some n, some es, some dr, some outs => handleFw n es dr outs
+     | _, _, _, _ => err "bad arguments")
+  | some ("support", [n, es, directed, outs]) =>
+    (match n.toNat?, toEdges? es, directed.toBool?, outs.toArr? with
+     | some n, some es, some dr, some outs => handleSupport n es dr outs
      | _, _, _, _ => err "bad arguments")
   | some ("reach", [n, es, s, outs]) =>
     (match n.toNat?, toEdges? es, s.toNat?, outs.toArr? with
